@@ -89,17 +89,23 @@ impl MulticastGroups {
 
 struct Rx {
     recv: mpsc::Receiver<(Datagram, SocketAddr)>,
+    /// Used to keep the slot of a buffered message occupied, so that `buffer`
+    /// does not extend the configured capacity.
+    send: mpsc::Sender<(Datagram, SocketAddr)>,
     /// A buffered received message.
     ///
     /// This is used to support the `readable` method, as [`mpsc::Receiver`]
     /// doesn't expose a way to query channel readiness.
     buffer: Option<(Datagram, SocketAddr)>,
+    /// The queue slot held on behalf of `buffer`.
+    buffer_slot: Option<mpsc::OwnedPermit<(Datagram, SocketAddr)>>,
 }
 
 impl Rx {
     /// Tries to receive from either the buffered message or the mpsc channel
     pub fn try_recv_from(&mut self, buf: &mut [u8]) -> Result<(usize, Datagram, SocketAddr)> {
         let (datagram, origin) = if let Some(datagram) = self.buffer.take() {
+            self.buffer_slot = None;
             datagram
         } else {
             self.recv.try_recv().map_err(|_| {
@@ -141,18 +147,25 @@ impl Rx {
             .expect("sender should never be dropped");
 
         self.buffer = Some(datagram);
+        self.buffer_slot = self.send.clone().try_reserve_owned().ok();
 
         Ok(())
     }
 }
 
 impl UdpSocket {
-    pub(crate) fn new(local_addr: SocketAddr, rx: mpsc::Receiver<(Datagram, SocketAddr)>) -> Self {
+    pub(crate) fn new(
+        local_addr: SocketAddr,
+        tx: mpsc::Sender<(Datagram, SocketAddr)>,
+        rx: mpsc::Receiver<(Datagram, SocketAddr)>,
+    ) -> Self {
         Self {
             local_addr,
             rx: Mutex::new(Rx {
                 recv: rx,
+                send: tx,
                 buffer: None,
+                buffer_slot: None,
             }),
         }
     }
